@@ -347,7 +347,7 @@ func (net *Net) hostileInput(victim *RNode, r *rand.Rand) {
 			e := evs[r.Intn(len(evs))]
 			if e.Kind == spi.EvSend && e.Raw != nil && len(e.Raw.Content) > 8 {
 				b := append([]byte{}, e.Raw.Content...)
-				switch r.Intn(3) {
+				switch r.Intn(5) {
 				case 0:
 					b = b[:r.Intn(len(b)+1)]
 				case 1:
@@ -355,6 +355,12 @@ func (net *Net) hostileInput(victim *RNode, r *rand.Rand) {
 				case 2:
 					i := r.Intn(len(b) - 3)
 					b[i], b[i+1], b[i+2], b[i+3] = 0xff, 0xff, 0xff, 0x7f
+				default:
+					// a length field (4-byte aligned) replaced by a value next to 2^32: 32-bit offset arithmetic wraps, the eager
+					// checks of the outer layers still add up and the first reader of the nested field fails
+					i := 4 * r.Intn((len(b)-3)/4)
+					v := [][4]byte{{0xfc, 0xff, 0xff, 0xff}, {0xff, 0xff, 0xff, 0xff}, {0xf0, 0xff, 0xff, 0xff}, {0xf8, 0xff, 0xff, 0xff}, {0, 0, 0, 0x80}}[r.Intn(5)]
+					b[i], b[i+1], b[i+2], b[i+3] = v[0], v[1], v[2], v[3]
 				}
 				raw = &interfaces.ConsensusRawMessage{Content: b, Block: e.Raw.Block}
 			}
